@@ -62,6 +62,13 @@ theorem runSelf_eq_obsFlow (X : Ext) (f : Fn) (args : List Val) (p : String) (ps
   rw [h]
   cases f.flow X args <;> rfl
 
+/-- `orch_eval` that also uses every hypothesis in scope -/
+macro "orch_eval_all" : tactic =>
+  `(tactic| simp [*, Fn.run, Fn.runGen, Fn.runTr, Fn.flow, initEnv, execBlock, exec, eval, evalList, withVal, withBool, bindAll,
+      St.set, Res.bind, Res.map, getAttr, binop, cmpop, ordOp, memOf, Val.eqv, Val.eqv.eqvList, truthy_int, truthy_bool,
+      truthy_str, truthy_none, truthy_list, truthy_dict, truthy_record,
+      Val.asList, Val.asInt, isNone, builtin, intsOf, anyM, allM, compM, forLoop, List.lookup])
+
 /-- entering a call with the callee's own parameter list and body is `Fn.flow` of the callee -/
 theorem enterCall_eq_flow (X : Ext) (f : Fn) (vs : List Val) :
     enterCall f.params vs (execBlock X f.body) = f.flow X vs := by
